@@ -9,9 +9,13 @@ TRUSTED = [
     "tools/extractors/c09.py transcribes MAX_ALLOC, the impl_read!/impl_write_int!/impl_write_float! instantiation table "
     "(width, signedness, byte order, accepted range), the fill range, size_of::<Value>() = 8 from `pub struct Value(u64)` "
     "and DEFAULT_MAX_HEAP_BYTES/MIN_HEAP_BYTES from the Rust source text",
+    "tools/extractors/c09.py (MemChecks) regenerates the operand-check tables of builtins.rs and memory.inc (operand, check, order, "
+    "error kind), VM::manual_heap_error's map and the opcode numbers 28..33; C09_vm_step_is_table_driven proves the hand-written "
+    "surface model equal to the interpreter of those tables; an unrecognised source SHAPE falls back to the reference tables "
+    "(recorded under notes / operand_check_tables) and leaves the end-to-end tie as the only witness for that piece",
     "Model/ManualHeap.v is a hand model of manual_heap/{heap,alloc,access}.rs, VM::manual_alloc/ensure_heap_capacity, "
     "builtins.rs (alloc/free/load/store) and memory.inc (opcodes 28..33); Model/Bytes.v of stdlib/bytes.rs + vm/resources.rs; "
-    "tied on every run by hx_mheap (result kind, value and bytes_allocated() after every step of every history)",
+    "tied on every run by hx_mheap (result kind, value and bytes_allocated() after every step of every history; ManualHeap methods and the native builtins are also called directly, function by function)",
     "usize = u64 = 64 bits; the system allocator never fails for requests that passed ensure_heap_capacity / MAX_ALLOC "
     "(vec![..; n] is modelled as always succeeding: allocation failure is C10's subject)",
     "hook ManualHeap::verif_set_bytes_allocated (cfg vbxq_aelys_lang_verif, /repo 4e9342e) overwrites the charge in the `forged` "
